@@ -396,25 +396,25 @@ ALLOCATE_CONTRACT(Q_AL8, RQ_AL8, bytes, 8UL);
 #define B_PS 512UL
 unsigned nondet_uint(void);
 static unsigned b_pages_made, b_pages_freed, b_blocks_made, b_blocks_freed, b_dtor_expected, b_dtor_calls;
-static char *b_block[32]; static size_t b_block_bytes[32], b_block_align[32]; static _Bool b_block_live[32];
 
 size_t PageAllocator_page_size(struct PageAllocator *self) { return B_PS; }
 void PageAllocator_deallocate__voidPP_u64(struct PageAllocator *self, void **pages, unsigned long num) {
   __CPROVER_assert(num <= 15, "K4 C06.release batch fits the temporary array");
   for (unsigned long i = 0; i < num; ++i) { b_pages_freed++; free(pages[i]); }   /* double/invalid free => pointer-check failure */
 }
+/* every upstream block carries a 16-byte header in front of it (bytes, alignment as obtained): O(1) look-up, and free()
+ * of the header address makes a second return of the same block a CBMC double-free failure */
 void std_pmr_memory_resource_deallocate(struct std_pmr_memory_resource *self, void *p, unsigned long bytes, unsigned long alignment) {
-  unsigned k = nondet_uint(); __CPROVER_assume(k < b_blocks_made && b_block[k] == (char *)p);
-  __CPROVER_assert(b_block_live[k], "K1 C06.release every oversize block goes back upstream at most once");
-  __CPROVER_assert(b_block_bytes[k] == bytes && b_block_align[k] == alignment, "K1 C06.release oversize block returned with the size and alignment it was obtained with");
-  b_block_live[k] = 0; b_blocks_freed++; free(p);
+  size_t *hdr = (size_t *)((char *)p - 16);
+  __CPROVER_assert(hdr[0] == bytes && hdr[1] == alignment, "K1 C06.release oversize block returned with the size and alignment it was obtained with");
+  b_blocks_freed++; free(hdr);
 }
 static void b_dtor(void *p) {
   __CPROVER_assert((size_t)p == b_dtor_calls, "K1 C06.release destructors run exactly once each, newest first");
   b_dtor_calls++;
 }
 static char *b_page(void) { b_pages_made++; return (char *)malloc(B_PS); }
-static char *b_upblock(size_t bytes, size_t al) { unsigned k = b_blocks_made++; b_block[k] = (char *)malloc(bytes); b_block_bytes[k] = bytes; b_block_align[k] = al; b_block_live[k] = 1; return b_block[k]; }
+static char *b_upblock(size_t bytes, size_t al) { b_blocks_made++; size_t *hdr = (size_t *)malloc(bytes + 16); hdr[0] = bytes; hdr[1] = al; return (char *)hdr + 16; }
 
 /* build `n` (<=2) chained PageArrays; array a is placed 8-aligned inside page number `host` of its own list */
 static void b_build_pages(R_t *r) {
